@@ -115,6 +115,15 @@ func (e *Emulator) Step() (*Step, error) {
 		// (including constants pointing to the following instruction)
 		// are still valid.
 		if rStore, ok := ef.(expr.RegStore); ok && rStore.Key() == expr.IPKey {
+			// An instruction without any jump target writes just the
+			// address following its original position. Such an
+			// instruction is not bound to the end of a basic block
+			// and it can be moved, so the constant written is not
+			// valid any more and the write has to be ignored.
+			if len(ins.Jumps()) == 0 {
+				continue
+			}
+
 			jumped = true
 		}
 
